@@ -257,7 +257,16 @@ class _Inliner:
         self.helpers = helpers          # name -> _Helper, visible from the caller
         self.caller = caller
         self.count = 0
-        self.used = _all_names(caller) | _stored_names(caller)
+        if isinstance(caller, ast.Module):
+            # names of the module-level statements (function bodies have their own scopes)
+            self.used = set()
+            for st in caller.body:
+                if isinstance(st, (ast.FunctionDef, ast.AsyncFunctionDef, ast.ClassDef)):
+                    self.used.add(st.name)
+                else:
+                    self.used |= _all_names(st) | _stored_names(st)
+        else:
+            self.used = _all_names(caller) | _stored_names(caller)
         self.serial = 0
 
     def _fresh(self, base):
@@ -650,6 +659,8 @@ def apply(forest):
             inl = _Inliner(helpers, fn)
             inl.inline_expr_sites(fn)
             info['inlined'] += inl.count
+        # module-level statements (dispatch tables filled in loops) call helpers, too
+        info['inlined'] += _inline_in_function(t2, top)
         info['helpers'] += [f'{mod}.{k}' for k, v in top.items() if v.ok]
         info['constants'] += [f'{mod}.{k}' for k in consts]
         ast.fix_missing_locations(t2)
